@@ -134,7 +134,7 @@ def emul_full_expr(e, l, my_eip, env, machine):
 
         while True:
 
-            my_ecx = machine.eval_expr(machine.pool[ecx], {})
+            my_ecx = machine.get_reg(ecx)
             if not isinstance(my_ecx, ExprInt):
                 raise ValueError('Emulation fails for "%s". ECX value is %s'
                     % (l, str(machine.pool[ecx])))
@@ -143,7 +143,7 @@ def emul_full_expr(e, l, my_eip, env, machine):
             if my_ecx.arg ==0:
                 break
 
-            my_edi = machine.eval_expr(machine.pool[edi], {})
+            my_edi = machine.get_reg(edi)
             if expr_depth(my_edi) > 100:
                 raise ValueError('Emulation fails for "%s". EDI value is too complicated' % l)
             if my_ecx.arg > 0x1000:
@@ -154,10 +154,9 @@ def emul_full_expr(e, l, my_eip, env, machine):
 
             info = l.opmode, l.admode
             machine.eval_instr(mov(info, ecx, ExprOp('-', my_ecx, ExprInt(uint32(1)))))
-            machine.eval_expr(machine.pool[ecx], {})
 
             if zf_w :
-                my_zf = machine.eval_expr(machine.pool[zf], {})
+                my_zf = machine.get_reg(zf)
                 if not isinstance(my_zf, ExprInt):
                     # the termination test cannot be decided
                     raise ValueError('Emulation fails for "%s". ZF value is %s'
